@@ -1,14 +1,71 @@
 from common import *
+import os, re, shutil, subprocess, tempfile
+
+
+def _translate(spec):
+    """Second tie: regenerate Gallina definitions from /repo/pkg/seqnum/seqnum.go (go/ast translator
+    harness/cmd/tr_seqnum) and prove them equal to the model functions (coq/GenProofs/SeqnumGenP.v)."""
+    import vlib
+    td = tempfile.mkdtemp(prefix="verif-c14gen-")
+    pre = dict(obligations=8, discharged=0, theorems=[], broken=None, log="",
+               checker_cmd="tr_seqnum <repo>/pkg/seqnum/seqnum.go $TMP/SeqnumGen.v && coqc -Q coq NP -Q $TMP NPGen SeqnumGen.v SeqnumGenP.v",
+               info={})
+    try:
+        drv, err = vlib.build_driver("tr_seqnum", td)
+        if err:
+            pre["broken"], pre["log"] = "translator does not build", err
+            return pre
+        src = os.path.join(vlib.REPO, "pkg/seqnum/seqnum.go")
+        p = subprocess.run([drv, src, os.path.join(td, "SeqnumGen.v")], capture_output=True, text=True, timeout=120)
+        pre["info"]["translator_output"] = (p.stdout + p.stderr).strip()[:500]
+        if p.returncode != 0:
+            pre["broken"], pre["log"] = "seqnum.go is outside the translator's subset (exit %d)" % p.returncode, p.stdout + p.stderr
+            return pre
+        pre["info"]["generated"] = open(os.path.join(td, "SeqnumGen.v")).read()[:3000]
+        shutil.copy(os.path.join(vlib.COQ, "GenProofs", "SeqnumGenP.v"), td)
+        # the model's .vo must exist
+        lock = vlib.coq_lock(); vlib.ensure_makefile(vlib.COQ); lock.close()
+        vlib.sh("timeout 900 make Model/Seqnum.vo", cwd=vlib.COQ)
+        for f in ("SeqnumGen.v", "SeqnumGenP.v"):
+            rc, out = vlib.sh(["timeout", "900", "coqc", "-Q", vlib.COQ, "NP", "-Q", td, "NPGen", os.path.join(td, f)], cwd=td)
+            if rc != 0:
+                m = re.search(r'line (\d+)', out)
+                name = ""
+                if m and f == "SeqnumGenP.v":
+                    lines = open(os.path.join(td, f)).read().splitlines()
+                    for ln in range(int(m.group(1)) - 1, -1, -1):
+                        mm = re.match(r"Theorem (\w+)", lines[ln])
+                        if mm:
+                            name = mm.group(1); break
+                pre["broken"] = "GenProofs/SeqnumGenP.v: %s (generated function differs from Model.Seqnum)" % (name or f)
+                pre["log"] = out
+                return pre
+        src_p = open(os.path.join(td, "SeqnumGenP.v")).read()
+        pre["theorems"] = re.findall(r"^Theorem (\w+)", src_p, re.M)
+        pre["discharged"] = len(pre["theorems"])
+        pre["obligations"] = len(pre["theorems"])
+        return pre
+    finally:
+        shutil.rmtree(td, ignore_errors=True)
+
+
+def _run(spec, tier, seed):
+    import vlib
+    sp = dict(spec)
+    sp.pop("run")
+    sp["pre_obligations"] = _translate(spec)
+    return vlib.standard_check(sp, tier, seed)
+
 
 SPEC = dict(
-    id="C14", corr="Corr.C14", driver="h_c14", overlay=False,
+    id="C14", corr="Corr.C14", driver="h_c14", overlay=False, run=_run,
     targets=["Properties/C14.vo", "Corr/C14.vo"],
     args=lambda tier, seed: ["-seed", seed, "-n", 6000 if tier == "quick" else 150000],
     search_args=lambda seed: ["-seed", seed, "-n", 40000],
     shard=8000,
     patterns={2: "C14-half", 3: "C14-empty"},
     rule="boundary lattice (11 bases x 16 distances) then seeded random operands (3/4 boundary values, 1/4 uniform) for LessThan/LessThanEq/InRange/InWindow/Overlap/Add/Size/UpdateForward of pkg/seqnum; a case is non-trivial when operands differ / sizes are non-zero (tag 1 = no wrap, 2 = range wraps through 0); distinct = distinct case lines",
-    trusted_base=[KERNEL, CORR_TB, "Print Assumptions: every C14 theorem is closed under the global context (no axioms)",
+    trusted_base=[KERNEL, CORR_TB, "second tie: go/ast->Gallina translator harness/cmd/tr_seqnum (unverified, ~200 lines) regenerates the seqnum functions from the current source on every run; GenProofs/SeqnumGenP.v proves generated = model for all integers", "Print Assumptions: every C14 theorem is closed under the global context (no axioms)",
                   "modelled, not verified: pkg/seqnum/seqnum.go (hand-written Gallina model Model/Seqnum.v, tied by the differential run)"],
     assumptions=["Go uint32 arithmetic wraps modulo 2^32 and int32(x)<0 means x>=2^31 (written into the model)"],
 )
